@@ -433,6 +433,130 @@ def generate(repo, gen_dir):
             "digest": dg, "files": per, "changed": changed, "parsed": p}
 
 
+# --------------------------------------------------------------------------- second route: behaviour
+# DESIGN.md 1.1: when the source no longer has a shape the text translator parses (a reformatted match, a
+# named constant, a composite arm body) the table is rebuilt from what the COMPILED code does: the harness
+# (`c09 table`) reports convert(u, v, x) for 206 fixed probes per ordered pair plus the variant lists, associated
+# units and base units.  An arm is tabulated as Id / Mul k / Div k when that form reproduces every probe bit for
+# bit in binary64 (python floats are binary64); as an APPROXIMATE Mul k (k = convert(u, v, 1.0)) when every probe
+# agrees with x * k to 1e-12 relative (a numerically harmless composite body; the correspondence stream then
+# needs its 1e-9 band for that arm); anything else is not multiplication by a constant: reported as `untabulated`
+# (the factor seen at 1.0 is written so that the rest of the run still describes the current code) and the caller
+# fails closed.
+
+def _f64(bits_hex):
+    return struct.unpack("<d", struct.pack("<Q", int(bits_hex, 16)))[0]
+
+
+def _flit(m, e):
+    """Base/Num.v Flit in python: float_of_Z m (*|/) float_of_Z 10^|e|"""
+    fm = float(m)
+    if e == 0:
+        return fm
+    p = float(10 ** abs(e))
+    return fm * p if e > 0 else fm / p
+
+
+def _shortest_literal(k):
+    """(mantissa, exponent) of the shortest decimal that rustc/python read back as k, or None if the binary64
+    instance of the model cannot reproduce it"""
+    from decimal import Decimal
+    if k != k or k in (float("inf"), float("-inf")):
+        return None
+    if k == 0.0:
+        return (0, 0) if f64_bits(k) == 0 else None      # -0.0 has no literal in the table format
+    sign, digits, exp = Decimal(repr(k)).as_tuple()
+    m = int("".join(map(str, digits)))
+    while m % 10 == 0 and m != 0:
+        m //= 10
+        exp += 1
+    if m == 0 or m >= 2 ** 63 or abs(exp) > MAX_EXP:
+        return None
+    if sign:
+        m = -m
+    if f64_bits(_flit(m, exp)) != f64_bits(k):
+        return None
+    return m, exp
+
+
+def _neighbours(x, n):
+    import math
+    out, lo, hi = [x], x, x
+    for _ in range(n):
+        lo, hi = math.nextafter(lo, -math.inf), math.nextafter(hi, math.inf)
+        out += [lo, hi]
+    return out
+
+
+def entry_from_behaviour(obs, strict=True):
+    """obs: [(x_bits, y_bits)], first probe x = 1.0 -> (conv tuple, 'exact' | 'approximate' | 'untabulated')"""
+    pts = [(_f64(a), _f64(b)) for a, b in obs]
+    same = lambda a, b: f64_bits(a) == f64_bits(b)  # noqa
+    if all(same(x, y) for x, y in pts):
+        return ("Id",), "exact"
+    assert pts[0][0] == 1.0
+    k = pts[0][1]
+    lit = _shortest_literal(k)
+    if lit and all(same(x * k, y) for x, y in pts):
+        return ("Mul",) + lit, "exact"
+    if k > 0.0 and k == k and k != float("inf"):
+        cands = []
+        for c in _neighbours(1.0 / k, 8):
+            l2 = _shortest_literal(c)
+            if l2 and all(same(x / c, y) for x, y in pts):
+                cands.append((len(str(l2[0])), l2))
+        if cands:
+            return ("Div",) + min(cands)[1], "exact"
+    if lit and all(y == y and abs(y - x * k) <= 1e-12 * abs(y) for x, y in pts):
+        return ("Mul",) + lit, "approximate"
+    if strict:
+        raise TranslateError("behaviour is not multiplication or division by one constant (convert(.., 1.0) = %r)" % k)
+    # best effort so that the rest of the run still describes the current code: the factor seen at 1.0
+    return ("Mul",) + (lit or (0, 0)), "untabulated"
+
+
+def parse_behaviour(beh, strict=True):
+    """table.json of `c09 table` -> (dict shaped like parse_all's result, [approximate arms], [untabulated arms])"""
+    variants, tables, approx, untab = {}, {}, [], []
+    for fam, _f, _e in FAMILIES + ENUM_ONLY:
+        if fam not in beh:
+            raise TranslateError("behavioural table has no family %r" % fam)
+        variants[fam] = list(beh[fam]["variants"])
+    for fam, _f, _e in FAMILIES:
+        rows = []
+        for row in beh[fam]["rows"]:
+            try:
+                c, how = entry_from_behaviour(row["obs"], strict)
+            except TranslateError as e:
+                raise TranslateError("%s %s -> %s: %s" % (fam, row["from"], row["to"], e))
+            if how == "approximate":
+                approx.append([fam, row["from"], row["to"]])
+            elif how == "untabulated":
+                untab.append([fam, row["from"], row["to"], "convert(.., 1.0) = %r" % _f64(row["obs"][0][1])])
+            rows.append(((row["from"], row["to"]), c, 0))
+        want = {(u, w) for u in variants[fam] for w in variants[fam]}
+        if {k for k, _, _ in rows} != want or len(rows) != len(want):
+            raise TranslateError("behavioural table of %s does not cover every ordered pair exactly once" % fam)
+        tables[fam] = rows
+    assoc = {name: [tuple(p) for p in beh["_associated"][name]] for name, _f, _e, _fn, _r in ASSOCIATED}
+    bases = {name: beh["_bases"][name] for name, _c, _e in BASES}
+    return {"variants": variants, "tables": tables, "associated": assoc, "bases": bases}, approx, untab
+
+
+def generate_from_behaviour(beh, gen_dir):
+    """always writes a table describing the current code as well as it can be tabulated; `untabulated` lists the arms
+    that are NOT multiplication/division by one constant (the caller must fail closed on them)"""
+    p, approx, untab = parse_behaviour(beh, strict=False)
+    text = render(p).replace(
+        "(* GENERATED by translator/tr_units.py from",
+        "(* BEHAVIOURAL EXTRACTION (the source text was not recognised by the translator): factors observed on the\n"
+        "   compiled code by `c09 table`, same format.  Text route would have been: GENERATED by translator/tr_units.py from", 1)
+    changed = write_if_changed(os.path.join(gen_dir, "UnitTables.v"), text)
+    return {"ok": not untab, "parsed": p, "approximate": approx, "untabulated": untab, "changed": changed,
+            "msg": "UnitTables.v from behaviour: %d arms, %d approximate, %d not tabulatable"
+                   % (sum(len(t) for t in p["tables"].values()), len(approx), len(untab))}
+
+
 # --------------------------------------------------------------------------- helpers for checks/c09.py
 
 def conv_fraction(c):
